@@ -17,7 +17,9 @@
        has not fired, the very next screen-layer event is T_INPUT [scr; args] text with that same text and the
        arguments OF THAT REQUEST, and the handler does not end before it;
      - T_INPUT occurs only then.
-   It holds for EVERY well-formed session (screen ids in range).  The comparison of the arguments used to fail
+   It holds for EVERY well-formed session (screen ids in range), whatever the screens' setup() methods do themselves
+   (a setup() that pushes screens, asks for input, raises ...: [sc_setup_cmds], event T_SETUP_BEGIN; [wf_session] ranges
+   over those commands too - C06_setup_commands_example).  The comparison of the arguments used to fail
    (finding F15: InputManager._input_args was one slot per screen, read at delivery time); since the fix the callback
    of a request carries that request's arguments.  The refutation is kept on the legacy model
    (C06_args_overwritten_refuted_legacy; proofs/C06Proofs.v [legacy_input_ready_handler]).
@@ -99,6 +101,20 @@ Example C06_example :
                              EUser T_READY [0; 1] [49%N]; EUser T_INPUT [0; 0] [49%N]] = false.
 Proof. vm_compute. repeat split. Qed.
 
+(* a setup() that runs commands (no hypothesis on setup() in the theorems above): screen 0's setup() pushes screen 1
+   modally with arguments 5; inside that setup() call the modal screen is set up, asks, gets the FIRST typed line with ITS
+   arguments and closes; then setup() of screen 0 reports success, screen 0 asks and gets the second line and the end of file *)
+Example C06_setup_commands_example :
+  wf_session su06_specl None su06_acts = true /\
+  fst su06_run = [ONormal; OBlocked] /\
+  sok chk_C06 su06_typed su06_trace = true /\
+  user_events T_SETUP_BEGIN su06_trace = [([0; 0; 0], [])] /\
+  user_events T_SETUP su06_trace = [([1; 1; 5; 1], []); ([0; 0; 0; 1], [])] /\
+  user_events T_INPUT su06_trace = [([1; 5], [49%N]); ([0; 0], [50%N]); ([0; 0], [])] /\
+  (* the decidable hypothesis of part 5 looks into the setup commands as well *)
+  no_modal_syntax su06_specl None su06_acts = false.
+Proof. vm_compute. repeat split. Qed.
+
 (* finding F15, fixed (corpus/screen/regression_F15_args_overwritten.json): run() twice after force_quit; the refused second request
    of the same screen (scheduled a second time with arguments 2) wrote InputManager._input_args and the error was
    dropped by force_quit.  LEGACY model (arguments read from the manager at delivery time): the line typed for the
@@ -157,7 +173,7 @@ Proof.
 Qed.
 
 (* 5. the same under a decidable hypothesis on the SESSION: [no_modal_syntax specl quit acts] (proofs/InputOrderSyn.v) =
-   no SPushModal in any command list (refresh / show_all / closed / input / signal callbacks, SIfCount branches, the
+   no SPushModal in any command list (setup / refresh / show_all / closed / input / signal callbacks, SIfCount branches, the
    application's own actions) and no quit dialog (quit = None).  Such a session never calls execute_new_loop ... *)
 Theorem C06_no_modal_no_nested_loop : forall specs specl typed quit run_empty fuel acts,
   (forall n, specs n = nth n specl default_spec) -> no_modal_syntax specl quit acts = true ->
